@@ -87,6 +87,7 @@ def harnesses(tier):
         h += P.curated_h(CHAINS + HEAVY, [(1, 1), (2, 0), (2, 1), (3, 1)], "line")
         h += P.generated_h(4, [(1, 1), (2, 0), (2, 1), (3, 0)], "sync", keep=has_two_enq)
     h += P.scale_h(tier, ["S11-failing-partial-then-chain", "S5-bounded-queue-six", "S6-chain4", "S8-backlog-behind-gate", "S1-twelve-tasks"])  # many tasks / restarts / larger pools, first ladder levels
+    h += P.fault_h(tier)  # a worker-thread creation that fails
     return h
 
 
